@@ -4,6 +4,8 @@ import (
 	"encoding/json"
 	"fmt"
 	"os"
+	"runtime/debug"
+	"runtime/pprof"
 	"sort"
 	"strings"
 )
@@ -18,6 +20,7 @@ func usage() {
 }
 
 func main() {
+	debug.SetGCPercent(400)
 	if len(os.Args) < 2 {
 		usage()
 	}
@@ -82,6 +85,11 @@ func main() {
 }
 
 func runCheck(id, tier string, d Driver) (code int) {
+	if pf := os.Getenv("GOVC_PROF"); pf != "" {
+		f, _ := os.Create(pf)
+		pprof.StartCPUProfile(f)
+		defer pprof.StopCPUProfile()
+	}
 	c := NewCheck(id, tier)
 	w, err := LoadWorld()
 	if err != nil {
